@@ -5,7 +5,8 @@ FUNCTIONS = ['socket.Socket._send_ping', 'async_socket.AsyncSocket._send_ping',
              'socket.Socket.send', 'async_socket.AsyncSocket.send',
              'socket.Socket.receive', 'async_socket.AsyncSocket.receive',
              'socket.Socket.poll', 'async_socket.AsyncSocket.poll',
-             'socket.Socket.handle_get_request', 'server.Server._handle_connect']
+             'socket.Socket.handle_get_request', 'server.Server._handle_connect',
+             'server.Server._service_task', 'async_server.AsyncServer._service_task']
 
 LEVEL_TEXT = ('over a ghost clock: _send_ping emits the PING exactly ping_interval after it was scheduled '
               'and records that instant; it is scheduled at the OPEN (_handle_connect) and at every PONG '
@@ -15,7 +16,10 @@ LEVEL_TEXT = ('over a ghost clock: _send_ping emits the PING exactly ping_interv
               'with "transport error"; ACCURACY and the 3 x ping_timeout BOUND are arithmetic lemmas over '
               'these contracts')
 LEVEL_NOTE = ('ideal timers (sleep(d) advances the ghost clock by exactly d, zero time inside atomic sections, '
-              'zero spawn latency); floats as reals; the monitor sweep (_service_task: every socket checked at '
-              'least once per 2 x ping_timeout) is an assumption of the BOUND lemma, not yet under contract')
-NOT_DECIDED = ['real scheduler latency', '_service_task sweep loop', 'WebSocket read time-out -> "transport close" (asyncio wait_for branch)']
+              'zero spawn latency); floats as reals; the monitor (_service_task) is under contract for the sleeps '
+              'it requests: one sweep over the n sessions present at its start waits n x (ping_timeout / n) <= '
+              'ping_timeout in total (program-point check + loop invariant over the ghost `slept`), which with '
+              'zero processing time gives the sweep period the BOUND lemma uses; that every session of the '
+              'snapshot is visited once per sweep is the for-loop itself (not a separate ghost log)')
+NOT_DECIDED = ['real scheduler latency', 'processing time inside a monitor sweep (handler bodies, sends)', 'WebSocket read time-out -> "transport close" (asyncio wait_for branch)']
 ASSUMPTIONS = [LEVEL_NOTE]
